@@ -47,6 +47,10 @@ CHECKS = {
          "The real manager.Manager over the real connection.Manager talks to a scripted gNMI server on bufconn: per target 3-8 sessions of 0-20 numbered messages ending in error / EOF / silence, dial refusals, receive timeouts, forced Reconnect and Remove+re-Add at seeded message indexes and during backoff, duplicate Add and unknown Remove/Reconnect. Every callback, connection attempt and stream opening feeds an online state machine: Connect only after the first message of a new stream, deliveries only in session and an in-order prefix of what that stream carried, exactly one Reset per ended stream before the next stream, backoff between attempts (one-sided), bounded retry progress, and no event after Remove returned.",
          "Retry delays 20/40 ms; liveness restated as bounded progress (40 s grace, attributed by goroutine dump); silence observed for a 60 ms settling window; spurious reconnects tolerated as the statement allows.",
          "3/C13"),
+ "C06": ("exhaustive small-scope + seeded-random model differential on the real match trie / UpdateNotification / Server.Subscribe with counting clients",
+         "Every (query, path) pair over {a,b,*}^<=4 is pushed through the real match trie (Update, UpdateOnce, UpdateNotification) and 'offered' is compared with the compatibility relation of the statement; ctree.Query results are checked to be contained and streamed; every query set of size <= 2 is checked for at-most-once delivery against exhaustive single/multi update/delete notification shapes; seeded random subscribe/unsubscribe/update histories are compared with a model registry (removal, idempotence, sibling clients, re-add, caller-reused query slices); the server's own subscription path construction is driven through the real Server.Subscribe/Server.Update over an in-memory stream and compared with Compat on the index path, with path.CompletePath's snapshot path and with a census of the trie after the RPCs ended. Held = held on those executions.",
+         "model.Compat/IndexPath/IndexPrefix are the specification; plain Update judged for offered/not offered only; ambiguous re-registration histories excluded; the end-of-RPC census uses read-only reflection (availability recorded in the counters; skipped, never a violation, when unavailable); single goroutine at the match level.",
+         "3/C06"),
  "C09": ("reference-model differential monitor over exhaustive + random operation histories on the real ctree.Tree",
          "Every operation of every explored history is executed on the real tree and on a prefix-free-map model and the whole observable state (Walk, WalkSorted, wildcard queries, point lookups) plus the operation's own result is compared after every step. Exhaustive for all histories up to length 4 (5 thorough) over a 23-operation alphabet, seeded random beyond. Held = held on those executions.",
          "model.Tree is the specification (one trailing glob may match a leaf one element above); single goroutine; GetLeaf on a branch path is not required to be nil (relied on by the cache).",
